@@ -18,6 +18,7 @@ import (
 
 	"verif/internal/h"
 	"verif/internal/obs"
+	"verif/internal/ref"
 )
 
 // C09 — a parsed formula can be shared across goroutines.
@@ -166,6 +167,18 @@ func runWorkload(w workload) (msg string, maxInflight int32, evals int64) {
 							return
 						}
 						formula.ResolveReferenceFieldsNotLocal(trees[ti])
+					}
+				}
+				// this goroutine's own texts with non-ASCII identifiers (range-table lookups), scanned, parsed and classified
+				uni := fmt.Sprintf("\u540d\u5b57%d + gr\u00f6\u00dfe * \u0446\u0435\u043d\u0430 - \u03b1\u03bb\u03c6\u03b1.\u00e9\u00e8(\u4e2d\u6587%d)", g, it)
+				if pu := obs.Parse([]byte(uni)); !pu.OK() {
+					report(fmt.Sprintf("goroutine %d: concurrent parse of %q failed: %v %v", g, uni, pu.Err, pu.Panic))
+					return
+				}
+				for _, c := range []rune{0x540d, 0xe9, 0x3b1, 0x446, 0xffdc, 0x2028, 0xa0, 0x300, rune(0x4e00 + g + it)} {
+					if formula.IsIdentifierStart(c) != ref.IsIDStart(c) || formula.IsIdentifierPart(c) != ref.IsIDPart(c) || formula.IsWhiteSpace(c) != ref.IsSpace(c) || formula.IsLineBreak(c) != ref.IsNL(c) {
+						report(fmt.Sprintf("goroutine %d: class predicate for U+%04X differs under concurrency", g, c))
+						return
 					}
 				}
 				// parse and format errors for this goroutine's own texts
